@@ -18,11 +18,16 @@ CONSTS = {"c0": 0.5, "c1": -1.25, "c2": 3.0, "s2": 2.0,
 
 
 def make_leaf(shape, offset, seed, rest):
-    """leaf array for an init entry (name, shape, offset, const[, 'F' | ('val', x)])"""
-    if rest and isinstance(rest[0], (tuple, list)) and rest[0][0] == "val":
-        return np.full(shape, float(rest[0][1]))
+    """leaf array for an init entry (name, shape, offset, const, *options); options: 'F' (Fortran order),
+    ('val', x) (every element x), ('dtype', name)"""
     v = leaf_values(shape, offset, seed)
-    if rest and rest[0] == "F":
+    for o in rest:
+        if isinstance(o, (tuple, list)) and o[0] == "val":
+            v = np.full(shape, float(o[1]))
+    for o in rest:
+        if isinstance(o, (tuple, list)) and o[0] == "dtype":
+            v = v.astype(o[1])
+    if "F" in [o for o in rest if isinstance(o, str)]:
         v = np.asfortranarray(v)
     return v
 
@@ -177,7 +182,7 @@ class Model:
         self._fam_ub = {}  # family -> ultimate base object (strong ref)
         self.anc = {}  # (family, version) -> set of ancestor (family, version) nodes (liberal dataflow)
         for name, shape, offset, const, *rest in init:
-            arr = make_leaf(shape, offset, seed, rest).astype(dtype)
+            arr = make_leaf(shape, offset, seed, rest).astype(dtype)  # the model always computes in float64 / complex128
             self._new_owner(name, arr, const)
         self._maybe_inject()
 
@@ -522,8 +527,11 @@ def script(init, history, seed=0, tail=""):
     ]
     for name, shape, offset, const, *rest in init:
         val = "np.array(%s)" % np.array2string(np.ascontiguousarray(make_leaf(tuple(shape), offset, seed, rest)), separator=", ").replace("\n", "")
-        if rest and rest[0] == "F":
+        if "F" in [o for o in rest if isinstance(o, str)]:
             val = "np.asfortranarray(%s)" % val
+        for o in rest:
+            if isinstance(o, (tuple, list)) and o[0] == "dtype":
+                val = "%s.astype(%r)" % (val, o[1])
         lines.append("%s = mg.tensor(%s, constant=%r)" % (name, val, const))
     for st in history:
         lines.append(render(tuple(st)))
